@@ -7,11 +7,16 @@ mod cms;
 mod heap;
 mod hll;
 mod lc;
+mod mem;
 mod qf;
 mod rs;
+mod sizing;
 mod td;
 
 use common::*;
+
+#[global_allocator]
+static GLOBAL: mem::Counting = mem::Counting;
 use serde_json::{json, Value};
 
 fn replay<S: Sut>(args: &[String]) {
@@ -108,6 +113,8 @@ fn main() {
         ("scenario", "td") => scenario::<td::TdSut>(&args),
         ("drive", "td") => td::drive(&args),
         ("rank", "td") => td::rank(&args),
+        ("sizing", _) => sizing::run(&args),
+        ("mem", _) => mem::run(&args),
         ("replay", "ck") => replay::<ck::CkSut>(&args),
         ("scenario", "ck") => scenario::<ck::CkSut>(&args),
         ("drive", "ck") => ck::drive(&args),
